@@ -423,6 +423,11 @@ def run(ctx):
                "Database::persist takes the journal lock, then looks at the flag" if ok else
                "Database::persist looks at the poison flag without holding the journal lock: a writer can fail and poison in between, and persist then reports success on a failed journal")
 
+    # ---- cross-cutting disciplines (rules/discipline.py)
+    from .. import discipline as D
+    # the failing call reports an error: no Result is discarded anywhere outside the reviewed table
+    D.error_discipline(ctx, "R-C13.10", floor=440)
+
     # ---- borrowed obligations (mechanisms owned by other properties that this property's verdict also rests on)
     # reopening after a failed (short) write recovers what was acknowledged: the torn tail is cut, never fatal
     ctx.borrow("C03", ["R-C03.3"], "R-C13.9")
